@@ -2,6 +2,8 @@
    stdin: one case per line
      C <sort> <a> <b> <c>        all nine ordered comparisons among three values
      K <sort> <k1> <k2> ... <kn> the keys are set into a Tree (value = index), then each is looked up
+   operand of a C case: a value, or P(v,v,@0,...) = a Tuple given slot by slot, @j = the SAME object
+         pointer as slot j (aliasing); top level only
    value:  i<dec> | f<16 hex digits: binary64 bit pattern> | s<hex bytes> | t<hex bytes: type name>
          | b<tid>.<hex bytes: plain struct> | A(v,..) | L(v,..) | T(v,..)  (Array List Tuple)
          | M(k:v,..)  (Tree, bindings in insertion order)
@@ -98,6 +100,39 @@ let model_pair a b =
     let g = function Some x -> bit x | None -> "x" in
     z_to_dec c ^ ":" ^ g (v_eq a b) ^ g (v_neq a b) ^ g (v_lt a b) ^ g (v_gt a b) ^ g (v_le a b) ^ g (v_ge a b)
 
+(* operands: a plain value, or P(v,v,@0,..): a Tuple slot by slot, @j = the same pointer as slot j *)
+let split_top (s : string) : string list =
+  (* split the inside of P(...) at top-level commas *)
+  let depth = ref 0 and cur = Buffer.create 16 and out = ref [] in
+  String.iter (fun c ->
+    if c = '(' then incr depth; if c = ')' then decr depth;
+    if c = ',' && !depth = 0 then (out := Buffer.contents cur :: !out; Buffer.clear cur)
+    else Buffer.add_char cur c) s;
+  if Buffer.length cur > 0 || !out <> [] then out := Buffer.contents cur :: !out;
+  List.rev !out
+
+let parse_operand (spec : bool) (s : string) : operand =
+  if String.length s >= 3 && s.[0] = 'P' && s.[1] = '(' then begin
+    let inner = String.sub s 2 (String.length s - 3) in
+    let toks = split_top inner in
+    let items = ref [] in
+    List.iteri (fun i t ->
+      if t <> "" && t.[0] = '@' then begin
+        let j = int_of_string (String.sub t 1 (String.length t - 1)) in
+        if j >= i then raise (Bad "alias");
+        items := !items @ [List.nth !items j]
+      end else items := !items @ [(n_of_int i, parse_value spec t)]) toks;
+    OTup !items
+  end else OVal (parse_value spec s)
+
+let model_operand_pair a b =
+  match a, b with
+  | OVal x, OVal y -> model_pair x y
+  | _ ->
+    (match operand_cmp a b with
+     | WRaise -> "raise" | WFuel -> "TIMEOUT"
+     | WRes c -> z_to_dec c ^ ":" ^ String.concat "" (List.map bit (preds_of c)))
+
 let spec_pair a b =
   match value_ord a b with
   | Lt -> "-1:011010" | Eq -> "0:100011" | Gt -> "1:010101"
@@ -108,10 +143,11 @@ let () =
     try
       match String.split_on_char ' ' line with
       | "C" :: so :: vs when List.length vs = 3 ->
-        let vs = List.map (parse_value (mode <> "model")) vs in
+        let vs = List.map (parse_operand (mode <> "model")) vs in
         let so = parse_sort so in
-        let indom = match so with None -> false | Some s -> List.for_all (has_sort s) vs in
-        let f = if mode = "model" then model_pair else if indom then spec_pair else (fun _ _ -> "?") in
+        let indom = match so with None -> false | Some s -> List.for_all (fun o -> has_sort s (operand_value o)) vs in
+        let f = if mode = "model" then model_operand_pair
+                else if indom then (fun a b -> spec_pair (operand_value a) (operand_value b)) else (fun _ _ -> "?") in
         print_endline (String.concat " " (List.concat_map (fun a -> List.map (fun b -> f a b) vs) vs))
       | "K" :: so :: ks ->
         let ks = List.map (parse_value (mode <> "model")) ks in
